@@ -253,6 +253,9 @@ def coq_dist(rng, kind, y, sal, opt, ye, M, LP, lead):
     return 'allR [%s]' % '; '.join(parts)
 
 
+_DOFF = [0]
+
+
 def _case_dist(rng, tier, kind, force_degenerate=False):
     k0 = kind.split(':')[0]
     lead = lead_shape(rng, cap=8 if k0 == 'bingham' else 125)
@@ -264,6 +267,11 @@ def _case_dist(rng, tier, kind, force_degenerate=False):
     N = int(rng.integers(2 * D + 2, 2 * D + 8))
     cplx = k0 in ('ccsg', 'watson', 'cacg', 'bingham')
     off = rng.normal(size=(*lead, 1, D)) * float(rng.choice([0.0, 1.0, 3.0]))
+    _DOFF[0] += 1
+    if k0 == 'gaussian' and _DOFF[0] % 3 == 0 and lead:
+        # slices whose means lie far apart relative to their spread (0, 1e6, 2e6, ...): a slice's result must not depend on
+        # where the OTHER slices lie
+        off = (np.arange(int(np.prod(lead))).reshape(*lead, 1, 1) * 1e6) * np.ones((*lead, 1, D))
     scale = rng.uniform(0.5, 2.0, size=(*lead, 1, 1))
     if cplx:
         y = (crandn(rng, (*lead, N, D)) + off) * scale
